@@ -115,12 +115,51 @@ def _json_default(o):
 # ---------------------------------------------------------------------------
 # polynomial-domain proving
 
+def with_dtype(sp: Space, arr, dtype):
+  """Declares that the symbolic array `arr` is STORED with `dtype` when it reaches the code under test (e.g. integer-valued data held in
+  an int64 array): the function is traced with an argument of that dtype, the variables only take values representable in it
+  (integers: rounded points), and every concrete call of the real function receives an array of that dtype."""
+  dt = np.dtype(dtype)
+  if not hasattr(sp, 'arg_dtype'):
+    sp.arg_dtype = {}; sp.int_vars = set(); sp._dtype_keep = []
+  sp.arg_dtype[id(arr)] = dt
+  sp._dtype_keep.append(arr)          # keeps id() stable
+  if dt.kind in 'iu':
+    M = arr.M.tocsr()
+    cols = np.unique(M.indices[M.data != 0])
+    for c in cols:
+      if c == 0:
+        continue
+      for v in sp.slots(sp.codes[c:c + 1])[0]:
+        if v:
+          sp.int_vars.add(int(v) - 1)
+  return arr
+
+
+def _dtype_of(sp, a):
+  return getattr(sp, 'arg_dtype', {}).get(id(a), None)
+
+
+def concretise(args, x, sp):
+  out = []
+  for a in args:
+    if is_sym(a):
+      v = np.asarray(a.evaluate(x))
+      dt = _dtype_of(sp, a)
+      if dt is not None:
+        v = (np.rint(v) if dt.kind in 'iu' else v).astype(dt)
+      out.append(v)
+    else:
+      out.append(np.asarray(a))
+  return out
+
+
 def interpret(fn, args, sp: Space, retrace=True):
   """Trace fn at float64 zeros shaped like args and interpret symbolically.
 
   Returns (flat list of outputs, treedef, interp).
   """
-  ex = [jnp.zeros(a.shape, dtype=jnp.float64) if is_sym(a) else jnp.asarray(a) for a in args]
+  ex = [jnp.zeros(a.shape, dtype=(_dtype_of(sp, a) or jnp.float64)) if is_sym(a) else jnp.asarray(a) for a in args]
   closed, out_shape = jax.make_jaxpr(fn, return_shape=True)(*ex)
   it = Interp(sp)
   outs = it.run(closed, *args)
@@ -158,11 +197,11 @@ def validate_translation(ctx: Ctx, fn, args, outs, sp: Space, npoints=2, rtol=1e
   jf = jax.jit(fn)
   for k_ in range(npoints):
     xv = sp.random_point(ctx.rng)
-    conc = [a.evaluate(xv) if is_sym(a) else a for a in args]
+    conc = concretise(args, xv, sp)
     ref = jax.tree_util.tree_leaves(jf(*conc))
     if k_ == 0 and os.environ.get('DVERIF_NO_EAGER') != '1':
       # the same real function called EAGERLY on plain numpy arrays (no jit): same values, and the caller's arrays are left untouched
-      npin = [np.array(c, dtype=float) if is_sym(a) else c for a, c in zip(args, conc)]
+      npin = [np.array(c, dtype=(_dtype_of(sp, a) or float)) if is_sym(a) else c for a, c in zip(args, conc)]
       keep = [np.array(c, copy=True) if isinstance(c, np.ndarray) else c for c in npin]
       try:
         eager = jax.tree_util.tree_leaves(fn(*npin))
@@ -336,7 +375,7 @@ def prove_close(ctx: Ctx, name, fn, args, sp: Space, *, eps=1e-9, select=None, s
             json.dumps(rp.get('signature', {}).get('config', {}), sort_keys=True, default=str) ==
             json.dumps(json.loads(json.dumps(config, default=_json_default)), sort_keys=True, default=str))
     if same and 'inputs' in rp:
-      conc = [np.asarray(v, dtype=float) for v in rp['inputs']]
+      conc = [np.asarray(v, dtype=(_dtype_of(sp, a_) or float)) for v, a_ in zip(rp['inputs'], args)]
       sig = rp['signature']
       try:
         out = jax.jit(fn)(*conc)
@@ -391,7 +430,7 @@ def prove_close(ctx: Ctx, name, fn, args, sp: Space, *, eps=1e-9, select=None, s
       # tracing / running the code under test raised: if the REAL function also raises on a concrete admissible input, the property
       # ("returns the same values ...") is violated on that input; otherwise it is a harness problem
       xv = sp.random_point(ctx.rng)
-      conc = [np.asarray(a.evaluate(xv)) if is_sym(a) else np.asarray(a) for a in args]
+      conc = concretise(args, xv, sp)
       try:
         fn(*[jnp.asarray(c) for c in conc])
       except Exception as e2:  # noqa: BLE001
@@ -403,7 +442,7 @@ def prove_close(ctx: Ctx, name, fn, args, sp: Space, *, eps=1e-9, select=None, s
       raise
     # the IR contains inf/nan constants: replay on the real function at a random point
     xv = sp.random_point(ctx.rng)
-    conc = [np.asarray(a.evaluate(xv)) if is_sym(a) else np.asarray(a) for a in args]
+    conc = concretise(args, xv, sp)
     out = jax.tree_util.tree_leaves(jax.jit(fn)(*conc))
     bad = [i for i, o in enumerate(out) if not np.all(np.isfinite(np.asarray(o)))]
     if bad:
@@ -418,7 +457,7 @@ def prove_close(ctx: Ctx, name, fn, args, sp: Space, *, eps=1e-9, select=None, s
   if getattr(it, 'retrace_differs', None) and fn is not None:
     # hidden state: two consecutive real calls on identical inputs
     xv = sp.random_point(ctx.rng)
-    conc = [np.asarray(a.evaluate(xv)) if is_sym(a) else np.asarray(a) for a in args]
+    conc = concretise(args, xv, sp)
     o1 = [np.asarray(o) for o in jax.tree_util.tree_leaves(fn(*conc))]
     o2 = [np.asarray(o) for o in jax.tree_util.tree_leaves(fn(*conc))]
     dmax = max((float(np.abs(p_.astype(float) - q_.astype(float)).max(initial=0.0)) if p_.shape == q_.shape else float('inf')) for p_, q_ in zip(o1, o2)) if o1 else 0.0
@@ -452,7 +491,7 @@ def prove_close(ctx: Ctx, name, fn, args, sp: Space, *, eps=1e-9, select=None, s
       if a_sym.shape != b_sym.shape:
         # the two sides do not even have the same shape: confirm on the real function and report as a violation
         xv = sp.random_point(ctx.rng)
-        conc = [np.asarray(x_.evaluate(xv)) if is_sym(x_) else np.asarray(x_) for x_ in args]
+        conc = concretise(args, xv, sp)
         real = jax.jit(fn)(*conc) if fn is not None else None
         rs = None
         if real is not None:
@@ -516,6 +555,8 @@ def prove_close(ctx: Ctx, name, fn, args, sp: Space, *, eps=1e-9, select=None, s
         s, e = M.indptr[rid], M.indptr[rid + 1]
         cols_all, vals_all = M.indices[s:e], M.data[s:e]
         x = _find_witness(sp, cols_all, vals_all, float(taus[rid]), ctx.rng)
+        if x is not None and getattr(sp, 'int_vars', None):
+          x = sp.complete_point(sp.round_int_vars(x))
         if x is None:
           ctx.error(name, f'abstraction sat but no concrete witness (leaf {li}, element {rid}, mass {dm[rid]:.3e}, tau {tau:.3e})')
           ok = False
@@ -596,7 +637,7 @@ def _term_vars(sp, cols, vals, tau):
 
 def replay_point(fn, args, sp, x, leaf, rid, has_rhs=True):
   """Run the real jitted function at the concrete point x; return discrepancy at (leaf, rid)."""
-  conc = [np.asarray(a.evaluate(x)) if is_sym(a) else np.asarray(a) for a in args]
+  conc = concretise(args, x, sp)
   out = jax.jit(fn)(*conc)
   if has_rhs:
     l = jax.tree_util.tree_leaves(out[0])[leaf]
